@@ -467,11 +467,28 @@ Fixpoint finish_elements (last_nb : nat) (common : option nat) (i : nat) (phs : 
       ret (match x with Some e => e :: xs | None => xs end)
   end.
 
+(* pattern.rs drop_empty_tail, on the REVERSED element list: the last text element is trimmed; if nothing is left
+   of it (its only content was a lone CR) it is dropped and the text in front of it is trimmed in turn *)
+Fixpoint drop_empty_tail_rev (rev_els : list pattern_element) : list pattern_element :=
+  match rev_els with
+  | TextElement v :: r =>
+      match trim_end v with
+      | [] => drop_empty_tail_rev r
+      | v' => TextElement v' :: r
+      end
+  | _ => rev_els
+  end.
+Definition drop_empty_tail (els : list pattern_element) : option pattern :=
+  match rev (drop_empty_tail_rev (rev els)) with
+  | [] => None
+  | els' => Some (Pattern els')
+  end.
+
 Definition finish_pattern (st : pstate) : M (option pattern) :=
   match last_non_blank st with
   | Some lnb =>
       els <- finish_elements lnb (common_indent st) 0 (firstn (S lnb) (rev (elements st))) ;;
-      ret (Some (Pattern els))
+      ret (drop_empty_tail els)
   | None => ret None
   end.
 
